@@ -15,7 +15,7 @@ import time
 
 VERIF = os.path.dirname(os.path.dirname(os.path.abspath(__file__)))
 REPO = os.environ.get("VERIF_REPO", "/repo")
-BUILD = os.environ.get("VERIF_BUILD", os.path.join(VERIF, ".build"))
+BUILD = os.environ.get("VERIF_BUILD", "/verif/.build")   # one hooked build tree, also for snapshots of /verif (vp run)
 SPEC = os.path.join(VERIF, "spec")
 OUT = os.environ.get("VERIF_OUT_DIR", os.path.join(VERIF, "out"))
 TLA_CP = "/opt/veriftools/tla/tla2tools.jar:/opt/veriftools/tla/CommunityModules-deps.jar"
